@@ -329,6 +329,8 @@ class Elab:
                     if n == name:
                         return FuncRef(f, None, None, rel)
                 return ModuleRef(v.name + '.' + name)
+            if v.name == 'traceback' and name in ('print_exc', 'print_stack', 'print_exception', 'format_exc'):
+                return ('npfn', (lambda *a, **k: '' if name == 'format_exc' else None))      # diagnostics only: no effect on the structure
             raise ElabError('module attribute %s.%s' % (v.name, name))
         if isinstance(v, (list, str, dict, tuple, int, float)):
             return ('native', v, name)
